@@ -145,6 +145,17 @@ func superMain(args []string) int {
 			queue = q
 		}
 	}
+	if only := os.Getenv("VERIF_PHASES"); only != "" { // development aid: run a subset of the phases
+		var q []Phase
+		for _, p := range queue {
+			for _, o := range strings.Split(only, ",") {
+				if p.Name == o {
+					q = append(q, p)
+				}
+			}
+		}
+		queue = q
+	}
 	for len(queue) > 0 {
 		ph := queue[0]
 		queue = queue[1:]
@@ -676,16 +687,16 @@ func (s *Super) finish() int {
 
 	fmt.Printf("%s %s seed=%d: %s; evaluations=%d distinct=%d violations=%d(unlisted keys %d) phases=%d crashes=%d races(gldap)=%d wall=%.1fs\n",
 		ck.ID, s.Tier, s.Seed, ev["verdict"], evals, distinct, totalV, unlisted, s.phasesRun, s.crashes, gldapRaces, time.Since(s.start).Seconds())
+	for _, m := range s.infra {
+		fmt.Printf("INFRASTRUCTURE: %s\n", m)
+	}
+	for _, m := range s.merged.Inconclusive {
+		fmt.Printf("INCONCLUSIVE: %s\n", m)
+	}
 	if exit == 1 {
 		return 1
 	}
 	if len(s.infra) > 0 || len(s.merged.Inconclusive) > 0 {
-		for _, m := range s.infra {
-			fmt.Printf("INFRASTRUCTURE: %s\n", m)
-		}
-		for _, m := range s.merged.Inconclusive {
-			fmt.Printf("INCONCLUSIVE: %s\n", m)
-		}
 		return 2
 	}
 	return 0
